@@ -171,12 +171,31 @@ func genSchedule(r *vh.Rand, k int) string {
 	return string(ev)
 }
 
-// passesField: "<p>[L][@schedule]"
+// genChunks: sizes of the short reads of the ammo file: single bytes, a few bytes, sizes around the
+// 4 KiB buffer, mixed.
+func genChunks(r *vh.Rand) string {
+	switch r.Intn(5) {
+	case 0:
+		return "1"
+	case 1:
+		return fmt.Sprint(r.Range(2, 9))
+	case 2:
+		return fmt.Sprintf("%d,%d", r.PickInt([]int{4095, 4096, 4097, 100}), r.Range(1, 3))
+	case 3:
+		return fmt.Sprintf("%d,%d,%d", r.Range(1, 50), r.Range(1000, 5000), r.Range(1, 5))
+	}
+	return fmt.Sprintf("%d", r.PickInt([]int{16, 511, 512, 4095, 4097}))
+}
+
+// passesField: "<p>[L][@schedule][%chunks]"
 func passesField(r *vh.Rand, nreq int, sched bool) string {
 	s := genPasses(r)
 	if sched {
 		p, _ := strconv.Atoi(strings.TrimSuffix(s, "L"))
 		s += "@" + genSchedule(r, p*nreq+1)
+	}
+	if r.Chance(1, 2) {
+		s += "%" + genChunks(r)
 	}
 	return s
 }
